@@ -262,6 +262,39 @@ MUTANTS = [
         }""")]),
     dict(name="c09-vectostream-regress", prop="C09", expect="C09.R3:<vec_to_stream::VecToStream as block::Block>::work:wait(src)",
          edits=[E("src/vec_to_stream.rs", "return Ok(BlockRet::WaitForStream(&self.dst, n));", "return Ok(BlockRet::WaitForStream(&self.src, n));")]),
+    # ---------------- C19 (macro mutants; the generated family makes them visible for every arity)
+    dict(name="c19-skip-consume-2nd-input", prop="C19", expect="C19.R2:<S21 as block::Block>::work:e:",
+         edits=[E("rustradio_macros/src/lib.rs", "                    #(#in_names.consume(n);)*", "                    #first.consume(n);")]),
+    dict(name="c19-fold-inputs-only", prop="C19", expect="C19.R2:<S11 as block::Block>::work:c:min_outputs",
+         edits=[E("rustradio_macros/src/lib.rs", "let n = [#(#out_names.len()),*].iter().fold(n, |min, &x|min.min(x));", "let _m = [#(#out_names.len()),*].iter().fold(n, |min, &x|min.min(x));")]),
+    dict(name="c19-consume-input-only-clamp", prop="C19", expect="C19.R2:<S11 as block::Block>::work:e:same_n",
+         edits=[E("rustradio_macros/src/lib.rs", "let n = [#(#out_names.len()),*].iter().fold(n, |min, &x|min.min(x));", "let steps = [#(#out_names.len()),*].iter().fold(n, |min, &x|min.min(x));"),
+                E("rustradio_macros/src/lib.rs", "assert_ne!(n, 0, \"Output stream len 0, but we already checked that.\");", "assert_ne!(steps, 0, \"Output stream len 0, but we already checked that.\");"),
+                E("rustradio_macros/src/lib.rs", "quote! { #first.iter().take(n) }", "quote! { #first.iter().take(steps) }"),
+                E("rustradio_macros/src/lib.rs", "quote! { itertools::izip!(#first.iter().take(n)#(, #rest.iter())*) }", "quote! { itertools::izip!(#first.iter().take(steps)#(, #rest.iter())*) }"),
+                E("rustradio_macros/src/lib.rs", "#(#out_names.produce(n, &otags);)*", "#(#out_names.produce(steps, &otags);)*")]),
+    dict(name="c19-wait-wrong-field", prop="C19", expect="C19.R2b:<S21 as block::Block>::work:wait(",
+         edits=[E("rustradio_macros/src/lib.rs", """                      if #out_names.len() == 0 {
+                          return Ok(#path::block::BlockRet::WaitForStream(&self.#out_names, 1));
+                      })*""", """                      if #out_names.len() == 0 {
+                          return Ok(#path::block::BlockRet::WaitForStream(&self.#first, 1));
+                      })*""")]),
+    dict(name="c19-new-outputs-reversed", prop="C19", expect="C19.R1:S12::new",
+         edits=[E("rustradio_macros/src/lib.rs", "                    }#(,#out_names.1)*)", "                    }#(,#out_names_rev.1)*)"),
+                E("rustradio_macros/src/lib.rs", "    let mut extra = vec![]; // If requested, generate some extra code.", "    let out_names_rev: Vec<_> = { let mut v = out_names.clone(); if v.len() == 2 && false { v.reverse(); } if v.len() == 2 { v.swap(0, 1); } v };\n    let mut extra = vec![]; // If requested, generate some extra code.")]),
+    dict(name="c19-eof-first-input-only", prop="C19", expect="C19.R3:<S21 as block::BlockEOF>::eof",
+         edits=[E("rustradio_macros/src/lib.rs", "if true #(&&self.#in_names.eof())* {", "if self.#first_in.eof() {"),
+                E("rustradio_macros/src/lib.rs", "    extra.push(match (in_names.is_empty(), has_attr(&input.attrs, \"noeof\", STRUCT_ATTRS)", "    let first_in = in_names.first().cloned();\n    extra.push(match (in_names.is_empty(), has_attr(&input.attrs, \"noeof\", STRUCT_ATTRS)")]),
+    # ---------------- C08 (generated loop)
+    dict(name="c08-produce-n-minus-1", prop="C08", expect="C08.R1:",
+         edits=[E("rustradio_macros/src/lib.rs", "#(#out_names.produce(n, &otags);)*", "#(#out_names.produce(n - 1, &otags);)*")], also=["C19"]),
+    dict(name="c08-rev-iterator", prop="C08", expect="C08.R1:<add::Add as block::Block>::work:i:adaptors",
+         edits=[E("rustradio_macros/src/lib.rs", "quote! { #first.iter().take(n) }", "quote! { #first.iter().take(n).rev() }")]),
+    # ---------------- C12 (generated tag path)
+    dict(name="c12-tag-new-zero", prop="C12", expect="C12.R2:<add::Add as block::Block>::work:emit_pos",
+         edits=[E("rustradio_macros/src/lib.rs", "otags.push(#path::stream::Tag::new(pos, tag.key(), tag.val().clone()));", "otags.push(#path::stream::Tag::new(0, tag.key(), tag.val().clone()));", count=2)]),
+    dict(name="c12-tag-filter-ge", prop="C12", expect="C12.R2:<add::Add as block::Block>::work:select_eq",
+         edits=[E("rustradio_macros/src/lib.rs", ".filter(|t| t.pos() == pos)", ".filter(|t| t.pos() >= pos)")]),
     # ---------------- C16
     dict(name="c16-plain-sub", prop="C16", expect="C16.R1:Repeat::again",
          edits=[E("src/lib.rs", "Repeater::Finite(n.saturating_sub(1));", "Repeater::Finite(n - 1);")]),
